@@ -6,6 +6,7 @@ assembles them the way the code does.
 import Strengths.Model.Basic
 import Strengths.Gen.IndexPy
 import Strengths.Gen.EngineCpp
+import Strengths.Gen.GeomPy
 
 namespace Strengths
 open Gen
@@ -38,6 +39,119 @@ def pyCellCoords (g : GridShape) (i : Int) : Res (Int × Int × Int) :=
   if withinBoundsNum (gridSize g.w g.h g.d) i then
     .ok (cellCoordX g.w g.h i, cellCoordY g.w g.h i, cellCoordZ g.w g.h i)
   else .error .outOfRange
+
+/-! ### Python side: positions in their three forms, neighbour queries -/
+
+/-- a position argument of `RDGridSpace`: a number (linear index), a tuple/list/array `(x, y, z)`,
+or an object with `x`, `y`, `z` attributes -/
+inductive Pos where
+  | num (p : Int)
+  | arr (x y z : Int)
+  | obj (x y z : Int)
+  deriving DecidableEq, Repr, Inhabited
+
+/-- `RDGridSpace.is_within_bounds(position)` -/
+def pyWithinBounds (g : GridShape) : Pos → Bool
+  | .num p => withinBoundsNum (gridSize g.w g.h g.d) p
+  | .arr x y z => withinBoundsArr g.w g.h g.d x y z
+  | .obj x y z => withinBoundsObj g.w g.h g.d x y z
+
+/-- `RDGridSpace.get_cell_index(position)` (all three forms) -/
+def pyCellIndex (g : GridShape) (pos : Pos) : Res Int :=
+  if (!cellIndexGuarded) || pyWithinBounds g pos then
+    match pos with
+    | .num p => .ok (cellIndexNum p)
+    | .arr x y z => .ok (cellIndexArr g.w g.h x y z)
+    | .obj x y z => .ok (cellIndexObj g.w g.h x y z)
+  else .error .outOfRange
+
+/-- `get_cell_coordinates(i)` honouring the generated guard flag -/
+def pyCoords (g : GridShape) (i : Int) : Res (Int × Int × Int) :=
+  if (!cellCoordsGuarded) || withinBoundsNum (gridSize g.w g.h g.d) i then
+    .ok (cellCoordX g.w g.h i, cellCoordY g.w g.h i, cellCoordZ g.w g.h i)
+  else .error .outOfRange
+
+/-- the distance test of `are_neighbors` on two coordinate triples -/
+def areNbrCoords (g : GridShape) (c1 c2 : Int × Int × Int) : Bool :=
+  let dx := areNbrDist0 c1.1 c2.1
+  let dy := areNbrDist1 c1.2.1 c2.2.1
+  let dz := areNbrDist2 c1.2.2 c2.2.2
+  let dx := if g.px then areNbrWrap0 g.w dx else dx
+  let dy := if g.py then areNbrWrap1 g.h dy else dy
+  let dz := if g.pz then areNbrWrap2 g.d dz else dz
+  areNbrTest dx dy dz
+
+/-- `RDGridSpace.are_neighbors(position1, position2)` -/
+def pyAreNeighbors (g : GridShape) (p1 p2 : Pos) : Res Bool :=
+  if areNbrGuards ≥ 1 && !pyWithinBounds g p1 then .error .outOfRange
+  else if areNbrGuards ≥ 2 && !pyWithinBounds g p2 then .error .outOfRange
+  else
+    match pyCellIndex g p1 with
+    | .error e => .error e
+    | .ok i1 =>
+      match pyCoords g i1 with
+      | .error e => .error e
+      | .ok c1 =>
+        match pyCellIndex g p2 with
+        | .error e => .error e
+        | .ok i2 =>
+          match pyCoords g i2 with
+          | .error e => .error e
+          | .ok c2 => .ok (areNbrCoords g c1 c2)
+
+/-- all elements `ok` → the list of values; the first error otherwise (evaluation order of a Python loop) -/
+def seqRes {α} : List (Res α) → Res (List α)
+  | [] => .ok []
+  | .error e :: _ => .error e
+  | .ok a :: rest =>
+    match seqRes rest with
+    | .error e => .error e
+    | .ok l => .ok (a :: l)
+
+/-- `RDGridSpace.get_neighbors(position)` : the list in the order the code appends -/
+def pyGetNeighbors (g : GridShape) (pos : Pos) : Res (List Int) :=
+  match pyCellIndex g pos with
+  | .error e => .error e
+  | .ok i =>
+    match pyCoords g i with
+    | .error e => .error e
+    | .ok (x, y, z) =>
+      seqRes (((getNbrRules g.w g.h g.d g.px g.py g.pz x y z).filter (·.1)).map
+        fun r => pyCellIndex g (.arr r.2.1 r.2.2.1 r.2.2.2))
+
+/-! ### kinetics: the neighbour enumeration of `_compute_dspeciesdt_grid` -/
+
+/-- the candidate coordinates after the three wrap lines -/
+def kinCandidates (g : GridShape) (x y z : Int) : List (Int × Int × Int) :=
+  (kinDeltas x y z).map fun c =>
+    let cx := if kinWrapCond0 g.px g.w then kinWrap0 g.w c.1 else c.1
+    let cy := if kinWrapCond1 g.py g.h then kinWrap1 g.h c.2.1 else c.2.1
+    let cz := if kinWrapCond2 g.pz g.d then kinWrap2 g.d c.2.2 else c.2.2
+    (cx, cy, cz)
+
+/-- the cells whose diffusion terms `_compute_dspeciesdt_grid` adds for the cell at `pos`, in order
+(with repetitions); `compute_diffusion_rates` raises when a candidate is not `are_neighbors` with the cell -/
+def kinNeighbors (g : GridShape) (pos : Pos) : Res (List Int) :=
+  match pyCellIndex g pos with
+  | .error e => .error e
+  | .ok i =>
+    match pyCoords g i with
+    | .error e => .error e
+    | .ok (x, y, z) =>
+      seqRes (((kinCandidates g x y z).filter fun c => (!kinBoundsGuard) || withinBoundsArr g.w g.h g.d c.1 c.2.1 c.2.2).map
+        fun c =>
+          match pyCellIndex g (.arr c.1 c.2.1 c.2.2) with
+          | .error e => .error e
+          | .ok j =>
+            -- compute_diffusion_rates(system, species, p, c): p is the coordinate tuple, c the list;
+            -- both are turned into indices, then `are_neighbors(src_index, dst_index)` must hold
+            match pyCellIndex g (.arr x y z) with
+            | .error e => .error e
+            | .ok i' =>
+              match pyAreNeighbors g (.num i') (.num j) with
+              | .error e => .error e
+              | .ok true => .ok j
+              | .ok false => .error .badValue)
 
 /-! ### C++ side (`SimulationAlgorithm3DBase`) -/
 
